@@ -194,3 +194,36 @@ func verifC18Repeat(K int) {
 }
 
 func VerifHarness_C18_Repeat_3() { verifC18Repeat(3) }
+
+// C08-O4: through the real Docker querier.  A container's log may hold a later
+// line with an earlier timestamp (stdout and stderr are copied independently);
+// the entries of a stream are in timestamp order all the same, none lost.
+func VerifHarness_C08_DockerOutOfOrder() {
+	fc := newFakeClient(1)
+	fc.noGate = true
+	fc.ctrs = append(fc.ctrs, types.Container{ID: "id0", Names: []string{"/c0"}, Image: "img", State: "running"})
+	// three frames; the arrival order is an engine choice over the permutations of the seconds 1, 2, 3
+	perms := [][3]int{{1, 2, 3}, {1, 3, 2}, {2, 1, 3}, {2, 3, 1}, {3, 1, 2}, {3, 2, 1}}
+	pm := perms[vsymChoice("arrival", len(perms))]
+	var data []byte
+	for k, sec := range pm {
+		data = append(data, verifFrame(byte(1+k%2), "2024-01-02T03:04:0"+strconv.Itoa(sec)+"Z", "m"+strconv.Itoa(sec))...)
+	}
+	fc.streams = append(fc.streams, data)
+	q := &Querier{client: fc}
+	e := logqlengine.NewEngine(q, logqlengine.Options{TracerProvider: noop.NewTracerProvider()})
+	const t0 = int64(1704164640) * 1e9
+	data2, err := e.Eval(context.Background(), `{container="c0"} | keep container`, logqlengine.EvalParams{Start: otelstorage.Timestamp(t0), End: otelstorage.Timestamp(t0 + 60e9), Step: time.Second, Limit: -1})
+	vsymAssert(err == nil, "the query evaluates")
+	streams, ok := data2.GetStreamsResult()
+	vsymAssert(ok && len(streams.Result) == 1, "one stream: every entry carries the labels {container=\"c0\"}")
+	vals := streams.Result[0].Values
+	vsymAssert(len(vals) == 3, "every record is returned")
+	for k := 0; k+1 < len(vals); k++ {
+		vsymAssert(vals[k].T <= vals[k+1].T, "entries within a stream are in timestamp order, whatever order the daemon delivered them in")
+	}
+	for k := range vals {
+		vsymAssert(vals[k].V == "m"+strconv.Itoa(k+1), "every entry keeps its line")
+	}
+	vsymReach("C08_docker_out_of_order")
+}
